@@ -71,6 +71,32 @@ class C03(E1Prop):
                     seq.insert(rng.randrange(2, len(seq)),
                                self.gen.next(w))
                 self.script = seq
+            elif w.use_queue and rng.random() < 0.3:
+                # story: a queued PR whose queue builds end in any state of
+                # the host contract (STOPPED = cancelled build included),
+                # some of them turning green afterwards
+                # (two PRs: the queue commits of the second one are new
+                # merge commits that no earlier report can have covered)
+                d = rng.choice(dests)
+                seq = [
+                    {'op': 'open_pr', 'actor': 'alice', 'src':
+                     'bugfix/TEST-911', 'dst': d, 'kind': 'new'},
+                    {'op': 'open_pr', 'actor': 'bob', 'src':
+                     'bugfix/TEST-912', 'dst': rng.choice([d, d, rng.choice(
+                         dests)]), 'kind': 'new'},
+                    {'op': 'eval', 'p': 0},
+                    {'op': 'eval', 'p': 1},
+                    {'op': 'ci_green_all', 'which': ['src', 'w']},
+                    {'op': 'eval', 'p': 0},
+                    {'op': 'eval', 'p': 1},
+                    {'op': 'ci_green_all', 'which': ['q'],
+                     'state': rng.choice(['STOPPED', 'STOPPED', 'FAILED',
+                                          'INPROGRESS', 'NOTSTARTED'])},
+                    {'op': 'deliver_all'},
+                ]
+                for o in seq:
+                    o['dt'] = rng.choice([1, 5, 30])
+                self.script = seq
         if getattr(self, 'script', None):
             return self.script.pop(0)
         return self.gen.next(w)
